@@ -107,6 +107,7 @@ class Categorize(Factory, Container):
         self.quantity = serializable(identity(quantity) if isinstance(quantity, str) else quantity)
         self.value = value
         self.bins = {}
+        self.contentName = None
         if value is not None:
             self.contentType = value.name
         else:
@@ -153,13 +154,19 @@ class Categorize(Factory, Container):
 
     @inheritdoc(Container)
     def zero(self):
-        return Categorize(self.quantity, self.value)
+        out = Categorize(self.quantity, self.value)
+        # without a template (reloaded from JSON) the content type and name are only known from these fields
+        out.contentType = self.contentType
+        out.contentName = self.contentName
+        return out
 
     @inheritdoc(Container)
     def __add__(self, other):
         if isinstance(other, Categorize):
             out = Categorize(self.quantity, self.value)
             out.entries = self.entries + other.entries
+            out.contentType = self.contentType
+            out.contentName = self.contentName
             out.bins = {}
             for k in self.keySet.union(other.keySet):
                 if k in self.bins and k in other.bins:
@@ -305,7 +312,7 @@ class Categorize(Factory, Container):
             else:
                 binsName = None
         else:
-            binsName = None
+            binsName = self.contentName
 
         if len(self.bins) > 0:
             bins_type = list(self.bins.values())[0].name
@@ -363,6 +370,7 @@ class Categorize(Factory, Container):
                 raise JsonFormatException(json, "Categorize.bins")
 
             out = Categorize.ed(entries, contentType, bins)
+            out.contentName = dataName
             out.quantity.name = nameFromParent if name is None else name
             return out.specialize()
 
